@@ -1,4 +1,4 @@
-from sa.selftest.harness import M, T
+from sa.selftest.harness import M, T, Variant
 
 R = "sharepoint2text/parsing/router.py"
 I = "sharepoint2text/__init__.py"
@@ -12,9 +12,11 @@ MUTANTS = [
     M("mime-before-extension", R, "    file_type = _file_type_from_extension(path_lower)\n    if file_type:", "    file_type = None if (mime_type is not None and mime_type in MIME_TYPE_MAPPING) else _file_type_from_extension(path_lower)\n    if file_type:", "C07-SHAPE"),
     M("alias-target-not-resolved", R, "    ext = _EXTENSION_ALIASES.get(ext, ext)\n    return ext if ext in _EXTRACTOR_REGISTRY else None", "    return ext if ext in _EXTRACTOR_REGISTRY else None", "C07-SHAPE"),
     M("wrong-error-class", R, "    raise ExtractionFileFormatNotSupportedError(f\"File type not supported: {mime_type}\")", "    raise ValueError(f\"File type not supported: {mime_type}\")", "C07-SHAPE"),
+    Variant("supported-check-by-pathlib-suffix", [(R, "import os\n", "import os\nfrom pathlib import PurePosixPath\n"), (R, "    extension = os.path.splitext(path_lower)[1]\n    if extension in _SUPPORTED_EXTENSIONS:", "    extension = PurePosixPath(path_lower).suffix\n    if extension in _SUPPORTED_EXTENSIONS:")], "C07-SHAPE"),
 ]
 
 TWINS = [
+    Variant("both-entry-points-by-pathlib-suffix", [(R, "import os\n", "import os\nfrom pathlib import PurePosixPath\n"), (R, "    extension = os.path.splitext(path_lower)[1]\n    if extension in _SUPPORTED_EXTENSIONS:", "    extension = PurePosixPath(path_lower).suffix\n    if extension in _SUPPORTED_EXTENSIONS:"), (R, "    extension = os.path.splitext(path_lower)[1]\n    if not extension:", "    extension = PurePosixPath(path_lower).suffix\n    if not extension:")], None),
     T("lower-once-renamed", R, "    path_lower = path.lower()\n    mime_type, _ = mimetypes.guess_type(path_lower)", "    path_lower = path.lower()\n    mime_type, _enc = mimetypes.guess_type(path_lower)"),
     T("registry-membership-by-get", R, "    return ext if ext in _EXTRACTOR_REGISTRY else None", "    return ext if _EXTRACTOR_REGISTRY.get(ext) is not None else None"),
 ]
